@@ -457,13 +457,16 @@ def applyRespStep (sv : Srv) (epoch : Nat) (hw : Int) (recs : List Rec) : Srv :=
   if sv.role ≠ .follower then sv
   else if Gen.Protocol.replRespEpochCmp.evalNat sv.leaderEpoch epoch then sv
   else
-    let log := sv.log.setHW hw
+    -- the follower adopts the leader's HW; since fix ba85aea it is capped at the follower's own
+    -- newest offset, and raised again after the append (`Gen.Protocol.followerHwCapped`)
+    let cap := fun (l : Log.CLog) => if Gen.Protocol.followerHwCapped then (if hw < l.newest then hw else l.newest) else hw
+    let log := sv.log.setHW (cap sv.log)
     match recs with
     | [] => { sv with log := log }
     | r :: _ =>
       if Gen.Protocol.replRespOffsetCmp.evalInt r.offset (log.newest + 1) then { sv with log := log }
       else match log.appendSet recs with
-        | .ok (log', _) => { sv with log := log' }
+        | .ok (log', _) => { sv with log := if Gen.Protocol.followerHwCapped then log'.setHW (cap log') else log' }
         | _ => { sv with log := log }
 
 def isNetTo (s : Sid) : Net → Bool
